@@ -24,12 +24,12 @@ package raft
 // onSnapReq (C09, C12)
 
 //@ func (*stateMachine).onSnapReq
-//@   props C09 C12
+//@   props C09 C12 C19
 //@   requires fsm.FSM != nil && fsm.snaps != nil && t.task != nil
 //@   modifies t.task.result, t.task.greplied
 //@   ensures [C09.snapshot-at-applied] istype(t.task.result, fsmSnapResp) ==> as(t.task.result, fsmSnapResp).index == fsm.index && as(t.task.result, fsmSnapResp).term == fsm.term
 //@   ensures [C12.index-term] istype(t.task.result, fsmSnapResp) ==> as(t.task.result, fsmSnapResp).index == old(fsm.index) && as(t.task.result, fsmSnapResp).term == old(fsm.term)
-//@   ensures [C09.snapshot-needed] istype(t.task.result, fsmSnapResp) ==> fsm.index != fsm.snaps.index && fsm.index >= t.index
+//@   ensures [C09+C19.snapshot-needed] istype(t.task.result, fsmSnapResp) ==> fsm.index != fsm.snaps.index && fsm.index >= t.index
 //@   ensures [C09.no-updates] fsm.index == fsm.snaps.index ==> istype(t.task.result, plainError) && as(t.task.result, plainError) == ErrNoUpdates
 //@   ensures [C09.threshold] fsm.index != fsm.snaps.index && fsm.index < t.index ==> istype(t.task.result, plainError) && as(t.task.result, plainError) == ErrSnapshotThreshold
 //@   ensures [C15.reply-once] t.task.greplied == old(t.task.greplied) + 1
